@@ -49,10 +49,10 @@ T = [
  ('SUB_TIME_TIME', ['time', 'time'], 'num', f'same(num(result), {t0}.Sub({t1}).Seconds())', 'C01 C02 C03 C04', {}),
  ('ADD_STR_STR', ['str', 'str'], 'str', f'strv(result) == {s0} + {s1}', 'C01 C02 C03 C04', {}),
  ('LEN_STR', ['str'], 'num', f'same(num(result), float64(utf8.RuneCountInString({s0})))', 'C01 C02 C03 C04', {}),
- ('EQ_LIST_LIST', ['list', 'list'], 'bool', 'boolv(result) == valEq(A0, A1)', 'C01 C02 C03 C04 C18', {}),
- ('NE_LIST_LIST', ['list', 'list'], 'bool', 'boolv(result) == !valEq(A0, A1)', 'C01 C02 C03 C04 C18', {}),
- ('EQ_MAP_MAP', ['map', 'map'], 'bool', 'boolv(result) == valEq(A0, A1)', 'C01 C02 C03 C04 C18', {}),
- ('NE_MAP_MAP', ['map', 'map'], 'bool', 'boolv(result) == !valEq(A0, A1)', 'C01 C02 C03 C04 C18', {}),
+ ('EQ_LIST_LIST', ['list', 'list'], 'bool', 'boolv(result) == valEq(A0, A1)', 'C01 C02 C03 C04 C18', {'req': 'wfV(A0) && wfV(A1)'}),
+ ('NE_LIST_LIST', ['list', 'list'], 'bool', 'boolv(result) == !valEq(A0, A1)', 'C01 C02 C03 C04 C18', {'req': 'wfV(A0) && wfV(A1)'}),
+ ('EQ_MAP_MAP', ['map', 'map'], 'bool', 'boolv(result) == valEq(A0, A1)', 'C01 C02 C03 C04 C18', {'req': 'wfV(A0) && wfV(A1)'}),
+ ('NE_MAP_MAP', ['map', 'map'], 'bool', 'boolv(result) == !valEq(A0, A1)', 'C01 C02 C03 C04 C18', {'req': 'wfV(A0) && wfV(A1)'}),
  ('LEN_LIST', ['list'], 'num', 'same(num(result), float64(len(A0.List().V)))', 'C01 C02 C03 C04', {'novm': True}),
  ('LEN_MAP', ['map'], 'num', 'same(num(result), float64(len(A0.Map().V)))', 'C01 C02 C03 C04', {'novm': True}),
  ('GET_MAYBE', ['maybe', 'any'], None, 'result == ite(A0.Maybe().V != nil, A0.Maybe().V, A1) && result != nil', 'C01 C02 C03 C04 C16', {'novm': True}),
@@ -76,6 +76,8 @@ for name, args, res, expr, props, extra in T:
     out.append('//@   uses types.init val.init')
     req = [f'len(args) == {len(args)}'] + [f'{K[k]}(args[{i}])' for i, k in enumerate(args)]
     out.append('//@   requires ' + ' && '.join(req))
+    if 'req' in extra:
+        out.append('//@   requires ' + sub(extra['req'], m))
     if 'fails' in extra:
         out.append('//@   fails_iff ' + sub(extra['fails'], m))
     else:
@@ -106,6 +108,8 @@ for name, args, res, expr, props, extra in T:
     out.append('//@     let sp0 = v.stack.sp')
     out.append(f'//@     requires opAt(b0, v.pc, {op})')
     out.append(f'//@     requires sp0 >= {n} && ' + ' && '.join(f'{K[k]}(stk(v, sp0-{n-i}))' for i, k in enumerate(args)))
+    if 'req' in extra:
+        out.append('//@     requires ' + sub(extra['req'], mreq))
     if 'fails' in extra:
         out.append('//@     fails_iff ' + sub(extra['fails'], mreq))
     else:
